@@ -333,9 +333,15 @@ func (p *eparser) primary() pres {
 			p.next()
 			return pres{toks: append(append(out, "IN"), p.expr(0).toks...)}
 		case "CHOOSE":
-			out := append([]string{"CHOOSE"}, p.binders()...)
+			bs := p.binders()
 			p.expect(":")
-			return pres{toks: append(append(out, ":"), p.expr(0).toks...)}
+			body := p.expr(0).toks
+			// a bound name the predicate never mentions is anonymous (`CHOOSE x \in S : TRUE`)
+			if len(bs) >= 2 && bs[1] == "\\in" && !containsTok(body, bs[0]) {
+				bs = append([]string{"$anon"}, bs[1:]...)
+			}
+			out := append([]string{"CHOOSE"}, bs...)
+			return pres{toks: append(append(out, ":"), body...)}
 		case "LAMBDA", "THEN", "ELSE", "IN", "OTHER", "EXCEPT":
 			p.fail("unexpected %s", t.S)
 		}
@@ -565,4 +571,13 @@ func (c *Canon) parseExpr(e Expr) (out []string, err error) {
 		p.fail("unexpected %q after the expression", p.toks[p.pos].S)
 	}
 	return out, nil
+}
+
+func containsTok(toks []string, t string) bool {
+	for _, x := range toks {
+		if x == t {
+			return true
+		}
+	}
+	return false
 }
